@@ -39,58 +39,45 @@ Theorem c10_is_valid_range : forall (lo hi v : Z) (b : bool),
 Proof. exact is_valid_range_Z_lemma. Qed.
 Print Assumptions c10_is_valid_range.
 
-(* What get_rlm_idx computes on the pinned tree: lower_bound's index, no equality test. *)
-Theorem c10_idx_char : forall (A : Type) (lt : A -> A -> bool), strict_total lt ->
+(* MAIN: set realms, the code since 63dae2a (lower_bound followed by an equality test).  An index
+   is reported exactly for the members of the domain, and it is that member's position. *)
+Theorem c10_idx_exact : forall (A : Type) (lt : A -> A -> bool), strict_total lt ->
   forall (S : list A) (v : A), sortedb lt S = true ->
   exists r, get_rlm_idx lt dt_set S v = Some r /\
-            forall i, r = Some i <-> (i = count_lt lt S v /\ i < length S).
-Proof. exact (@idx_char). Qed.
-Print Assumptions c10_idx_char.
+            forall i, r = Some i <-> nth_error S i = Some v.
+Proof. exact (@idx_exact). Qed.
+Print Assumptions c10_idx_exact.
 
-(* REFUTED: a value that is not a member but is below the maximum gets an index -- that of the
-   next larger member (Side '0' -> index 0, the description of '1' = BUY). *)
-Theorem c10_idx_refuted :
-  exists (S : list Z) (v : Z) (i : nat) (y : Z),
-    sortedb Z.ltb S = true /\ ~ In v S /\
-    get_rlm_idx Z.ltb dt_set S v = Some (Some i) /\ nth_error S i = Some y /\ y <> v /\
-    c10_idx_ok Z.ltb S v (Some i) = false.
-Proof. exact idx_refuted_lemma. Qed.
-Print Assumptions c10_idx_refuted.
+Theorem c10_idx_exists_iff_member : forall (A : Type) (lt : A -> A -> bool), strict_total lt ->
+  forall (S : list A) (v : A), sortedb lt S = true ->
+  exists r, get_rlm_idx lt dt_set S v = Some r /\ ((exists i, r = Some i) <-> In v S).
+Proof. exact (@idx_exists_iff_member). Qed.
+Print Assumptions c10_idx_exists_iff_member.
 
-(* ... and that is the only way it goes wrong: a non-member gets either no index (when it is
-   above every member) or the index of the smallest member above it. *)
-Theorem c10_idx_nonmember : forall (A : Type) (lt : A -> A -> bool), strict_total lt ->
-  forall (S : list A) (v : A), sortedb lt S = true -> ~ In v S ->
-  (forall i, get_rlm_idx lt dt_set S v = Some (Some i) ->
-     exists y, nth_error S i = Some y /\ lt v y = true /\
-               forall j z, j < i -> nth_error S j = Some z -> lt z v = true) /\
-  (get_rlm_idx lt dt_set S v = Some None <-> forall y, In y S -> lt y v = true).
-Proof. exact (@idx_nonmember). Qed.
-Print Assumptions c10_idx_nonmember.
+(* The printer (description chosen by that index): a description is shown exactly for members,
+   and it is the one paired with the value. *)
+Theorem c10_desc_exact : forall (A : Type) (lt : A -> A -> bool), strict_total lt ->
+  forall (D : Type) (S : list A) (descs : list D) (v : A),
+  sortedb lt S = true -> length descs = length S ->
+  exists r, describe lt dt_set S descs v = Some r /\
+            forall d, r = Some d <-> exists i, nth_error S i = Some v /\ nth_error descs i = Some d.
+Proof. exact (@desc_exact). Qed.
+Print Assumptions c10_desc_exact.
 
-(* PARTIAL: member values get exactly their own index. *)
-Theorem c10_idx_partial : forall (A : Type) (lt : A -> A -> bool), strict_total lt ->
-  forall (S : list A) (v : A) (i : nat), sortedb lt S = true -> nth_error S i = Some v ->
-  get_rlm_idx lt dt_set S v = Some (Some i).
-Proof. exact (@idx_member). Qed.
-Print Assumptions c10_idx_partial.
-
-(* PARTIAL, against the oracle: for a member, or a value above every member
-   (off_defect = member || all members smaller), index and printed description meet the
-   specification; the validity check meets it for every value. *)
-Theorem c10_oracle_idx_partial : forall (A : Type) (lt : A -> A -> bool), strict_total lt ->
-  forall (S : list A) (v : A) r, sortedb lt S = true -> off_defect lt S v = true ->
+(* Against the oracle (Spec_C10, linear scan), for every value: index, description, validity. *)
+Theorem c10_oracle_idx : forall (A : Type) (lt : A -> A -> bool), strict_total lt ->
+  forall (S : list A) (v : A) r, sortedb lt S = true ->
   get_rlm_idx lt dt_set S v = Some r -> c10_idx_ok lt S v r = true.
-Proof. exact (@model_idx_ok_partial). Qed.
-Print Assumptions c10_oracle_idx_partial.
+Proof. exact (@model_idx_ok). Qed.
+Print Assumptions c10_oracle_idx.
 
-Theorem c10_oracle_desc_partial : forall (A : Type) (lt : A -> A -> bool), strict_total lt ->
+Theorem c10_oracle_desc : forall (A : Type) (lt : A -> A -> bool), strict_total lt ->
   forall (D : Type) (eqD : D -> D -> bool), (forall d, eqD d d = true) ->
   forall (S : list A) (descs : list D) (v : A) r,
-  sortedb lt S = true -> off_defect lt S v = true -> length descs = length S ->
+  sortedb lt S = true -> length descs = length S ->
   describe lt dt_set S descs v = Some r -> c10_desc_ok lt eqD S descs v r = true.
-Proof. exact (@model_desc_ok_partial). Qed.
-Print Assumptions c10_oracle_desc_partial.
+Proof. exact (@model_desc_ok). Qed.
+Print Assumptions c10_oracle_desc.
 
 Theorem c10_oracle_valid : forall (A : Type) (lt : A -> A -> bool), strict_total lt ->
   forall (S : list A) (v : A) b, sortedb lt S = true ->
@@ -98,7 +85,45 @@ Theorem c10_oracle_valid : forall (A : Type) (lt : A -> A -> bool), strict_total
 Proof. exact (@model_valid_ok). Qed.
 Print Assumptions c10_oracle_valid.
 
-(* REFUTED for range realms: the index is 0 (the lower bound's description) for every value,
+(* The ORIGINAL routine (before 63dae2a: lower_bound's index with no equality test) violated the
+   property: a non-member below the maximum got the index -- and description -- of the next
+   larger member (Side '0' -> index 0 = BUY). *)
+Theorem c10_idx_orig_refuted :
+  exists (S : list Z) (v : Z) (i : nat) (y : Z),
+    sortedb Z.ltb S = true /\ ~ In v S /\
+    get_rlm_idx_orig Z.ltb dt_set S v = Some (Some i) /\ nth_error S i = Some y /\ y <> v /\
+    c10_idx_ok Z.ltb S v (Some i) = false.
+Proof. exact idx_refuted_lemma. Qed.
+Print Assumptions c10_idx_orig_refuted.
+
+(* The field object (Field<T,field>::is_valid / get_rlm_idx, one wrapper per specialisation): the
+   realm function is applied to the WHOLE value of the field -- validity of a field with a set
+   realm is membership of the whole value; a field without a realm is valid and has no index. *)
+Theorem c10_field_is_valid : forall (A : Type) (lt : A -> A -> bool), strict_total lt ->
+  forall (S : list A) (v : A), sortedb lt S = true ->
+  exists b, field_is_valid lt (Some (dt_set, S)) v = Some b /\ (b = true <-> In v S).
+Proof. exact (@field_is_valid_In). Qed.
+Print Assumptions c10_field_is_valid.
+
+Theorem c10_field_no_realm : forall (A : Type) (lt : A -> A -> bool) (v : A),
+  field_is_valid lt None v = Some true /\ field_get_rlm_idx lt None v = Some None.
+Proof. exact (@field_no_realm). Qed.
+Print Assumptions c10_field_no_realm.
+
+Theorem c10_field_idx : forall (A : Type) (lt : A -> A -> bool) fixed k (S : list A) (v : A),
+  field_get_rlm_idx_gen lt fixed (Some (k, S)) v = get_rlm_idx_gen lt fixed k S v.
+Proof. exact (@field_idx_is_realm_idx). Qed.
+Print Assumptions c10_field_idx.
+
+Theorem c10_oracle_field_valid : forall (A : Type) (lt : A -> A -> bool), strict_total lt ->
+  forall (rlm : option (rkind * list A)) (v : A) b,
+  match rlm with Some (dt_set, R) => sortedb lt R = true
+               | Some (dt_range, R) => exists lo hi, R = [lo; hi] | None => True end ->
+  field_is_valid lt rlm v = Some b -> c10_field_valid_ok lt rlm v b = true.
+Proof. exact (@model_field_valid_ok). Qed.
+Print Assumptions c10_oracle_field_valid.
+
+(* REFUTED for range realms (still true of the code): the index is 0 (the lower bound's description) for every value,
    even one outside the range. *)
 Theorem c10_idx_range_refuted :
   exists (lo hi v : Z),
@@ -108,22 +133,15 @@ Theorem c10_idx_range_refuted :
 Proof. exact idx_range_refuted_lemma. Qed.
 Print Assumptions c10_idx_range_refuted.
 
-(* The repaired lookup (equality test after lower_bound, candidate D8) is exact. *)
-Theorem c10_idx_fixed_exact : forall (A : Type) (lt : A -> A -> bool), strict_total lt ->
-  forall (S : list A) (v : A), sortedb lt S = true ->
-  exists r, get_rlm_idx_gen lt true dt_set S v = Some r /\
-            forall i, r = Some i <-> nth_error S i = Some v.
-Proof. exact (@idx_fixed_exact). Qed.
-Print Assumptions c10_idx_fixed_exact.
-
-(* Non-vacuity: the Side realm '1'..'9' is sorted; '5' is a member (index 4), 'A' is above all
-   members (no index), '0' is in the defect zone; a string realm likewise. *)
+(* Non-vacuity: the Side realm '1'..'9' is sorted; '5' is a member (index 4, its own description),
+   'A' and '0' are not (no index, no description); a string realm likewise. *)
 Theorem c10_nonvacuous :
   sortedb Z.ltb side_realm = true /\
-  off_defect Z.ltb side_realm 53%Z = true /\ off_defect Z.ltb side_realm 65%Z = true /\
-  off_defect Z.ltb side_realm 48%Z = false /\
   get_rlm_idx Z.ltb dt_set side_realm 53%Z = Some (Some 4%nat) /\
   get_rlm_idx Z.ltb dt_set side_realm 65%Z = Some None /\
+  get_rlm_idx Z.ltb dt_set side_realm 48%Z = Some None /\
+  describe Z.ltb dt_set side_realm [1; 2; 3; 4; 5; 6; 7; 8; 9]%Z 53%Z = Some (Some 5%Z) /\
+  describe Z.ltb dt_set side_realm [1; 2; 3; 4; 5; 6; 7; 8; 9]%Z 48%Z = Some None /\
   is_valid Z.ltb dt_set side_realm 53%Z = Some true /\
   is_valid Z.ltb dt_set side_realm 48%Z = Some false /\
   sortedb str_ltb [[67]; [78]; [82]]%Z = true /\
